@@ -50,8 +50,16 @@ def digest_to_e(dom, digest, allow_truncate=True):
     return int.from_bytes(digest, "big")
 
 
+_pub_cache = {}
+
+
 def pubkey(dom, d):
-    return dom.curve.mul(d, dom.G)
+    k = (dom.curve.key(), dom.G, d)
+    if k not in _pub_cache:
+        if len(_pub_cache) > 5000:
+            _pub_cache.clear()
+        _pub_cache[k] = dom.curve.mul(d, dom.G)
+    return _pub_cache[k]
 
 
 def sign(dom, d, k, e):
